@@ -8,8 +8,8 @@ from ..sim import Monitor
 from .common import all_demes, flat, gb, same_float, strictly_better
 
 PROP = "C04"
-N_QUICK = 2500
-N_THOROUGH = 50000
+N_QUICK = 3000
+N_THOROUGH = 80000
 RULE = ("Plans: all engine mixes, both directions, plateau / tie objectives, all GSCs, budget exhaustion and stop-signal "
         "faults; 30% of the plans are twin minimize() runs (same seed, budgets N1 < N2) whose call logs are compared.")
 NONTRIVIAL_RULE = ">= 2 boundaries at which the brute-force best over all histories was compared with the reported best"
@@ -31,6 +31,8 @@ def gen(seed, tier):
         m["maxiter"] = None
         if m.get("seed") is None:
             m["seed"] = seed % 100000
+        if (seed // 10) % 6 == 0:
+            m["seed"] = 0  # a legal seed that is falsy
         pl["twin_maxfun"] = m["maxfun"] + 1 + (seed // 10) % (2 * m["maxfun"])
         return pl
     pl = P.gen_plan(seed, PROFILE, PROP)
@@ -168,6 +170,11 @@ def run(plan):
         if "twin_maxfun" in plan and w.outcome == "returned":
             p2 = copy.deepcopy(plan)
             p2["minimize"]["maxfun"] = plan["twin_maxfun"]
+            # the second run starts from another prior state of the global generators: with a seed given the
+            # evaluations must be the same anyway
+            p2["prior_seed"] = (plan["prior_seed"] + 12345) % (2 ** 31)
+            p2["prior_junk"] = 11
+            p2["entropy_seed"] = plan.get("entropy_seed", 0) + 7
             w2 = build.execute(p2, MONITORS)
             try:
                 if w2.outcome == "returned":
